@@ -28,7 +28,7 @@
 #include <linux/futex.h>
 #include "ds.h"
 
-#define MAXT 48
+#define MAXT 128
 #define SBMAX 64
 #define MAXPROG 16
 #define MAXOPS 64
@@ -72,7 +72,9 @@ static unsigned long ds_step;
 static unsigned long max_steps = 60000;
 static long min_prio = 0, max_prio = 1000000;
 static unsigned long writes_epoch, last_progress_step;
-#define NOPROG 6000
+#define BULK_MAX 20000000ul
+static unsigned long bulk_steps, bulk_last_write;
+static unsigned long NOPROG = 6000;	/* cfg noprog: cases with long read-only stretches (hundreds of resident nodes) raise it */
 #define SLICE 1000
 static uint64_t flags;
 static int trace;
@@ -215,10 +217,14 @@ void ds_op_begin(int i)
 void *ds_raw_alloc(size_t n) { return __real_calloc(1, n); }
 
 /* ---- shadow heap ---- */
-#define ARENA_BASE ((char *)0x500000000000ul)
-#define ARENA_SIZE (1ul << 28)
+/* the arena straddles a 4 GiB address line: with `cfg addrline K` the K-th allocation of the case is placed exactly on it (an address whose low 32 bits
+ * are zero - node addresses are inputs of pointer-manipulating code: tag bits, casts, truncating conversions) */
+#define ARENA_LINE ((char *)0x500000000000ul)
+#define ARENA_BASE (ARENA_LINE - (1ul << 28))
+#define ARENA_SIZE (1ul << 29)
 #define SHADOW_BASE ((unsigned char *)0x510000000000ul)
 static char *arena_cur;
+static long addrline_k, arena_nalloc;
 static int arena_ready;
 struct ahdr { size_t size; void *site; void *fsite; uint64_t magic; };
 #define AMAGIC 0xa110c8edfeedf00dull
@@ -237,6 +243,7 @@ static void *arena_alloc(size_t n, size_t align, void *site)
 	if (align < 16) align = 16;
 	char *p = arena_cur + sizeof(struct ahdr) + 16;	/* red zone + header before */
 	p = (char *)(((uintptr_t)p + align - 1) & ~(align - 1));
+	if (addrline_k > 0 && active && self && ++arena_nalloc == addrline_k && p < ARENA_LINE && n <= 4096) { p = ARENA_LINE; flags |= 1ull << DSF_ADDRLINE; }
 	size_t rn = (n + 15) & ~15ul;
 	if (rn == 0) rn = 16;
 	if (p + rn + 32 > ARENA_BASE + ARENA_SIZE) die("badcase", "arena exhausted");
@@ -310,7 +317,7 @@ static void mem_store(uintptr_t addr, int size, uint64_t val)
 	case 4: __atomic_store_n((uint32_t *)addr, (uint32_t)val, __ATOMIC_SEQ_CST); break;
 	case 8: __atomic_store_n((uint64_t *)addr, (uint64_t)val, __ATOMIC_SEQ_CST); break;
 	}
-	writes_epoch++; last_progress_step = ds_step;
+	writes_epoch++; last_progress_step = ds_step; bulk_last_write = bulk_steps;
 }
 static void sb_flush_one(struct thr *t)
 {
@@ -394,7 +401,7 @@ static void check_progress(void)
 	}
 	if (ds_step - last_progress_step > NOPROG && !sb_any()) {
 		char b[600]; describe_threads(b, sizeof b);
-		die(solo_on ? "solo_hang" : "stuck", "no memory write or wake-up by any thread for %d steps: %s", NOPROG, b);
+		die(solo_on ? "solo_hang" : "stuck", "no memory write or wake-up by any thread for %lu steps: %s", NOPROG, b);
 	}
 }
 static void do_freeze(struct thr *me)
@@ -418,7 +425,16 @@ static inline int tmatch(struct thr *t, int tid) { return tid >= 0 ? (!t->daemon
 static void sched_point(void)
 {
 	struct thr *me = self;
-	if (!active || !me || in_rt || bulk) return;
+	if (!active || !me || in_rt) return;
+	if (bulk) {
+		/* not a scheduling point and not charged to the case's step budget (the stretch is long by design), but a stretch that never ends must still be
+		 * reported by the engine, not by the wall clock: it has its own allowance, and the no-progress detector keeps running on its own count */
+		in_rt = 1;
+		if (++bulk_steps > BULK_MAX) { char b[600]; describe_threads(b, sizeof b); die("stuck", "a single-step (bulk) stretch took more than %lu steps: %s", BULK_MAX, b); }
+		if (bulk_steps - bulk_last_write > NOPROG) { char b[600]; describe_threads(b, sizeof b); die("stuck", "no memory write for %lu steps inside a single-step (bulk) stretch: %s", NOPROG, b); }
+		in_rt = 0;
+		return;
+	}
 	in_rt = 1;
 	ds_step++; me->lsteps++; me->op_pts++;
 	check_progress();
@@ -462,6 +478,8 @@ static void yield_hint(void)
 	in_rt = 0;
 }
 void ds_yield(void) { yield_hint(); }
+/* scenario code made observable progress that is not a memory write (a traversal reached another node): resets the no-progress detector */
+void ds_progress(void) { last_progress_step = ds_step; }
 /* bulk mode: the calling thread runs a long, uninteresting stretch of library calls (tens of thousands of nested rcu_read_lock()) as one scheduling
  * step: its buffered stores are drained, then its accesses go straight to memory and are no scheduling points until ds_bulk(0). Wrapped calls (futex,
  * mutex) keep their simulated behaviour; if one blocks, other threads run as usual. The executions explored are those in which the thread is not
@@ -648,7 +666,7 @@ static void atomic_store_common(volatile void *a, int size, uint64_t v, int mo)
 static inline void rmw_pre(volatile void *a, int size)
 {
 	struct thr *me = self;
-	if (active && me && !in_rt) { sched_point(); check_access((const void *)a, size, 1); in_rt = 1; sb_drain(me); writes_epoch++; last_progress_step = ds_step; in_rt = 0; }
+	if (active && me && !in_rt) { sched_point(); check_access((const void *)a, size, 1); in_rt = 1; sb_drain(me); writes_epoch++; last_progress_step = ds_step; bulk_last_write = bulk_steps; in_rt = 0; }
 }
 #define AT(bits, TYPE) \
 TYPE __tsan_atomic##bits##_load(const volatile TYPE *a, int mo) { (void)mo; struct thr *me = self; \
@@ -690,6 +708,25 @@ static int fault_hit(const char *kind, long k)
 }
 
 /* ---- wrappers ---- */
+/* mutex ownership (oracle): unlocking a mutex that another thread holds, or that nobody holds, is undefined behaviour the C library does not report for
+ * default mutexes; here it is a violation. Mutexes first seen at an unlock (locked before the case started) are not judged. */
+static struct { pthread_mutex_t *m; int owner; } mown[256]; static int nmown;
+static void mown_set(pthread_mutex_t *m, int owner)
+{
+	for (int i = 0; i < nmown; i++) if (mown[i].m == m) { mown[i].owner = owner; return; }
+	if (nmown < 256) { mown[nmown].m = m; mown[nmown].owner = owner; nmown++; }
+}
+static void mown_check_unlock(pthread_mutex_t *m, struct thr *me)
+{
+	for (int i = 0; i < nmown; i++) if (mown[i].m == m) {
+		if (mown[i].owner != me->id + 1) {
+			if (mown[i].owner) die("viol", "pthread_mutex_unlock(%p) by E%d, but the mutex is held by E%d: a lock was dropped and not taken again on some path", (void *)m, me->id, mown[i].owner - 1);
+			die("viol", "pthread_mutex_unlock(%p) by E%d, but the mutex is not locked: a lock was dropped and not taken again on some path", (void *)m, me->id);
+		}
+		mown[i].owner = 0;
+		return;
+	}
+}
 int __wrap_pthread_mutex_lock(pthread_mutex_t *m)
 {
 	struct thr *me = self;
@@ -698,6 +735,7 @@ int __wrap_pthread_mutex_lock(pthread_mutex_t *m)
 	in_rt = 1; sb_drain(me);
 	while (__real_pthread_mutex_trylock(m) != 0) { flags |= 1ull << DSF_MUTEX_BLOCK; if (trace) fprintf(stderr, "[%6lu E%d] blocks on mutex %p (pid %d)\n", ds_step, me->id, (void *)m, (int)getpid()); if (solo_on && me->scen_idx == freeze_solo) solo_yields++; block_on(BK_MUTEX, m); }
 	if (trace > 1) fprintf(stderr, "[%6lu E%d] locked mutex %p (pid %d)\n", ds_step, me->id, (void *)m, (int)getpid());
+	mown_set(m, me->id + 1);
 	in_rt = 0;
 	return 0;
 }
@@ -708,6 +746,7 @@ int __wrap_pthread_mutex_trylock(pthread_mutex_t *m)
 	sched_point();
 	in_rt = 1; sb_drain(me);
 	int r = __real_pthread_mutex_trylock(m);
+	if (r == 0) mown_set(m, me->id + 1);
 	in_rt = 0;
 	return r;
 }
@@ -717,6 +756,7 @@ int __wrap_pthread_mutex_unlock(pthread_mutex_t *m)
 	if (!active || !me || in_rt) return __real_pthread_mutex_unlock(m);
 	sched_point();
 	in_rt = 1; sb_drain(me);
+	mown_check_unlock(m, me);
 	int r = __real_pthread_mutex_unlock(m);
 	if (trace > 1) fprintf(stderr, "[%6lu E%d] unlocked mutex %p (pid %d)\n", ds_step, me->id, (void *)m, (int)getpid());
 	wake_blocked(BK_MUTEX, m, MAXT);
@@ -731,11 +771,13 @@ int __wrap_pthread_cond_wait(pthread_cond_t *c, pthread_mutex_t *m)
 	if (!active || !me || in_rt) return __real_pthread_cond_wait(c, m);
 	sched_point();
 	in_rt = 1; sb_drain(me);
+	mown_check_unlock(m, me);
 	__real_pthread_mutex_unlock(m);
 	wake_blocked(BK_MUTEX, m, MAXT);
 	if (solo_on && me->scen_idx == freeze_solo) solo_yields++;
 	block_on(BK_COND, c);
 	while (__real_pthread_mutex_trylock(m) != 0) block_on(BK_MUTEX, m);
+	mown_set(m, me->id + 1);
 	in_rt = 0;
 	return 0;
 }
@@ -1085,6 +1127,8 @@ static void run_case(char *text, int tr)
 	ds_membarrier_available = (int)ds_cfg("membarrier", 1);
 	ncpus = (int)ds_cfg("ncpus", 2);
 	inplace_mode = (int)ds_cfg("inplace", 0);
+	addrline_k = ds_cfg("addrline", 0);
+	NOPROG = (unsigned long)ds_cfg("noprog", 6000);
 	ds_scenario_fn fn = NULL;
 	for (int i = 0; i < nscen; i++) if (!strcmp(scen_names[i], scen_name)) fn = scen_fns[i];
 	if (!fn) die("badcase", "unknown scenario '%s'", scen_name);
